@@ -264,7 +264,7 @@ func TestFindings(t *testing.T) {
 	if registry[id] == nil {
 		t.Skipf("VERIF_PROP=%q not registered", id)
 	}
-	harness.DefaultDeadline = 5 * time.Second
+	harness.DefaultDeadline = 3 * time.Second
 	for _, f := range harness.OpenFor(id) {
 		if f.Replay == "" {
 			fmt.Printf("KNOWN-FINDING: property=%s key=%s %s\n", id, f.Key, f.What)
